@@ -22,6 +22,7 @@ mod c15;
 mod c16;
 mod c17;
 mod c18;
+mod c19;
 mod c20;
 
 use common::*;
@@ -244,6 +245,7 @@ fn main() {
         "C13" => c13::run(thorough),
         "C14" => c14::run(thorough),
         "C18" => c18::run(thorough),
+        "C19" => c19::run(thorough),
         "C20" => c20::run(thorough),
         _ => {
             eprintln!("unknown property id {}", id);
